@@ -1,6 +1,51 @@
 import DaskModel.DriverLib
+import DaskModel.Model.GraphAlg
 open Dask
 
-def table : List (String × Handler) := []
+namespace GraphDrv
+open Dask.GraphAlg
+
+/-- `((k (d d ...)) ...)` -/
+def toGraph? (e : SExp) : Option Graph := do
+  (← e.toList?).mapM fun
+    | .list [k, ds] => do pure (← k.toNat?, ← ds.toNats?)
+    | _ => none
+
+def ofGraph (g : Graph) : SExp := .list (g.map fun (k, ds) => .list [SExp.ofNat k, SExp.ofNats ds])
+
+def ofOut : Out → SExp
+  | .ordered xs => .list [.sym "ordered", SExp.ofNats xs]
+  | .cycle c => .list [.sym "cycle", SExp.ofNats c]
+  | .keyError => .list [.sym "keyerror"]
+  | .stuck => .list [.sym "stuck"]
+  | .fuel => .list [.sym "fuel"]
+
+def hToposort : Handler := handler fun
+  | [g, keys] => do pure (ofOut (toposort (← toGraph? g) (← keys.toNats?)))
+  | _ => none
+
+def hGetcycle : Handler := handler fun
+  | [g, keys] => do
+    match getcycle (← toGraph? g) (← keys.toNats?) with
+    | some c => pure (.list [.sym "ok", SExp.ofNats c])
+    | none => pure (.list [.sym "raised"])
+  | _ => none
+
+def hIsdag : Handler := handler fun
+  | [g, keys] => do
+    match isdag (← toGraph? g) (← keys.toNats?) with
+    | some b => pure (.list [.sym "ok", SExp.ofBool b])
+    | none => pure (.list [.sym "raised"])
+  | _ => none
+
+def hReverseDict : Handler := handler fun
+  | [g] => do pure (ofGraph (reverseDict (← toGraph? g)))
+  | _ => none
+
+end GraphDrv
+
+def table : List (String × Handler) :=
+  [("toposort", GraphDrv.hToposort), ("getcycle", GraphDrv.hGetcycle), ("isdag", GraphDrv.hIsdag),
+   ("reverse_dict", GraphDrv.hReverseDict)]
 
 def main : IO Unit := runDriver table
